@@ -124,6 +124,13 @@ def cases(tier):
                         out.append(dict(kind="spline", L=L, N=N, grid=g, form=form, horizon="fixed"))
                         for order in ("guess_first", "T_first"):
                             out.append(dict(kind="spline", L=L, N=N, grid=g, form=form, horizon="Tfree", order=order))
+    # SplineMethod: one vector-valued state whose components sit in integrator chains of different lengths
+    if have_networkx():
+        for N in (2, 4):
+            for g in ("uniform", "geom"):
+                for form in ("const", "affine"):
+                    for when in ("before", "after"):
+                        out.append(dict(kind="spline_vec", N=N, grid=g, form=form, when=when))
     # several algebraic variables of different widths (DirectCollocation): every guess lands on its own variable
     for widths in ((2, 1, 1), (1, 2, 1), (1, 1), (3, 1)):
         for which in range(len(widths)):
@@ -154,6 +161,9 @@ def cases(tier):
         for h in explore.histories(list(range(len(HALPHA2))), depth):
             if h:
                 out.append(dict(kind="history", grid=g, ops=[HALPHA2[i] for i in h]))
+                # the same with the horizon given as a user variable (set_T(v)) whose guess is set through v
+                if any(HALPHA2[i][1] == "T" for i in h if HALPHA2[i][0] == "set_initial"):
+                    out.append(dict(kind="history", grid=g, horizon="Tvar", ops=[([o[0], "Tv"] + o[2:]) if (o[0] == "set_initial" and o[1] == "T") else o for o in (HALPHA2[i] for i in h)]))
     return out
 
 
@@ -466,9 +476,47 @@ def run_vshape(case):
     return dict(violations=vios, evaluations=1, traces=1, transitions=2, outcome=explore.sha(case), nontrivial=True, sample=case)
 
 
+def run_spline_vec(case):
+    """SplineMethod, p = state(2) with p0' = v, v' = u1 (chain of length 2) and p1' = u2 (length 1): a vector guess for p
+    gives every component its own guess"""
+    import rockit, casadi as ca, sys
+    from .c17 import rockit_grid, norm_grid
+    N, g, form, when = case["N"], case["grid"], case["form"], case["when"]
+    tags = ["method=Spline", "vector_state_mixed_chains", "N=%d" % N, "grid=%s" % g, "form=%s" % form, "when=%s" % when]
+    vios = []
+    try:
+        t0, T = 0.4, 1.7
+        ocp = rockit.Ocp(t0=t0, T=T)
+        p = ocp.state(2); v = ocp.state(); u1 = ocp.control(); u2 = ocp.control()
+        ocp.set_der(p, ca.vertcat(v, u2)); ocp.set_der(v, u1)
+        ocp.subject_to(-5 <= (u1 <= 5)); ocp.subject_to(-5 <= (u2 <= 5)); ocp.subject_to(ocp.at_t0(p) == ca.vertcat(0.1, 0.2))
+        ocp.add_objective(ocp.at_tf(ca.sumsqr(p)) + ocp.sum(u1 * u1 + u2 * u2))
+        ocp.solver("ipopt", {"ipopt.print_level": 0, "print_time": False, "ipopt.sb": "yes", "ipopt.max_iter": 0})
+        ocp.method(rockit.SplineMethod(N=N, grid=rockit_grid(g)))
+        a = np.array([7.0, 8.0]); b = np.array([0.6, -0.45]) if form == "affine" else np.zeros(2)
+        if when == "after":
+            ocp.solve_limited()
+        ocp.set_initial(p, ca.vertcat(a[0] + b[0] * ocp.t, a[1] + b[1] * ocp.t) if form == "affine" else ca.DM(a))
+        nlp = NL.Nlp(ocp)
+        tc = t0 + T * norm_grid(g, N)
+        F = ca.Function("f", [nlp.x, nlp.p], [ocp.sample(p, grid="control")[1]])
+        got = np.array(F(nlp.x0, nlp.p0)); got = got if got.shape[0] == 2 else got.T
+        want = np.array([a[i] + b[i] * tc for i in range(2)])
+        if got.shape != want.shape or not NL.close(got, want, 1e-8):
+            vios.append(dict(sig="value:x0:spline:vector-state", tags=tags, detail="starting p = %s, the guess implies %s" % (np.round(got, 4).tolist(), np.round(want, 4).tolist())))
+    except Exception as e:
+        fr_ = core.rockit_frame(sys.exc_info()[2])
+        if fr_ is None and not isinstance(e, (RuntimeError, AssertionError, AttributeError)):
+            raise
+        vios.append(dict(sig="exception:spline_vec:%s" % (fr_ or type(e).__name__), tags=tags, detail="%s: %s" % (type(e).__name__, str(e)[:200])))
+    return dict(violations=vios, evaluations=2, traces=1, transitions=2, outcome=explore.sha(case), nontrivial=True, sample=case)
+
+
 def run_case(case):
     if case["kind"] == "spline":
         return run_spline(case)
+    if case["kind"] == "spline_vec":
+        return run_spline_vec(case)
     if case["kind"] == "vshape":
         return run_vshape(case)
     if case["kind"] == "dae_branch":
@@ -484,15 +532,17 @@ def run_case(case):
     base = HBASE
     if case.get("grid"):
         base = copy.deepcopy(HBASE); base["grid"] = case["grid"]
+        if case.get("horizon"):
+            base["horizon"] = case["horizon"]
     out = hist.run_history(base, case["ops"])
-    tags = ["grid=%s" % case["grid"]] if case.get("grid") else []
+    tags = (["grid=%s" % case["grid"]] if case.get("grid") else []) + (["horizon=%s" % case["horizon"]] if case.get("horizon") else [])
     seen_tr = False
     for op in case["ops"]:
         if op[0] in ("query", "solve"): seen_tr = True
         else: tags.append(("post:" if seen_tr else "pre:") + op[0])
     vios = out["violations"]
     # the final starting point also has to equal the reference evaluator of the final specification
-    if out.get("final") is not None and not vios:
+    if out.get("final") is not None and not vios and case.get("horizon") != "Tvar":
         try:
             r = hist.declare_spec(copy.deepcopy(out["final"]))
             nlp = NL.Nlp(r.ocp, core.readbacks(r))
@@ -508,6 +558,6 @@ def run_case(case):
 
 def describe(tier):
     return dict(
-        rule="(f) DAE with a two-branch algebraic equation under MS/SS with the collocation / idas integrators and under DC: every history of length <=3 over {solve, query, guess of u, edit, guess of z on either branch}: next solve = fresh OCP with the final guesses; (e) global variables of shape 1xN, 1x(N+1), 2xN, Nx1 x {constant, matrix} guess x method x {before, after}: start value = guess entry by entry; (d) DAE with 2-3 algebraic variables of widths from {1,2,3} under DirectCollocation x target x {constant, time expression} x {before, after a first transcription}: the guess is the start value of exactly that variable at every collocation time, the others start at 0; (c) SplineMethod: chain length x N x grid x {constant, affine-in-time} guess of the chain head x {fixed, free horizon with a guess of T before/after}: head and derived members start on the guess (spline coefficients at Greville points reproduce affine functions exactly); (a) deviation-bounded enumeration over target (state, control, global / per-interval / control+ variable, algebraic, T, t0) x guess form (scalar, vector, n x N, n x (N+1), 1-D numpy, DM row, time expression) x second call (same target again, guess of T before/after, control expression) x method/N/M/degree/grid/horizon/scale plus the full target x form x method x grid table: the public read-back of opti's starting point equals an independent guess evaluator (entries the statement leaves open are excluded and counted); rows/objective unchanged; (b) every history of length <= d over 11 ops (guesses incl. dependent ones, query, solve, edit, method), and over 6 ops (two guesses of T, time-expression guesses, query, solve) on 4 grids with their own time variables (localized t0 / T, free): next solve = fresh OCP and = the evaluator",
+        rule="(g) SplineMethod with one vector state whose components are in chains of different lengths: a vector guess gives every component its own values; (f) DAE with a two-branch algebraic equation under MS/SS with the collocation / idas integrators and under DC: every history of length <=3 over {solve, query, guess of u, edit, guess of z on either branch}: next solve = fresh OCP with the final guesses; (e) global variables of shape 1xN, 1x(N+1), 2xN, Nx1 x {constant, matrix} guess x method x {before, after}: start value = guess entry by entry; (d) DAE with 2-3 algebraic variables of widths from {1,2,3} under DirectCollocation x target x {constant, time expression} x {before, after a first transcription}: the guess is the start value of exactly that variable at every collocation time, the others start at 0; (c) SplineMethod: chain length x N x grid x {constant, affine-in-time} guess of the chain head x {fixed, free horizon with a guess of T before/after}: head and derived members start on the guess (spline coefficients at Greville points reproduce affine functions exactly); (a) deviation-bounded enumeration over target (state, control, global / per-interval / control+ variable, algebraic, T, t0) x guess form (scalar, vector, n x N, n x (N+1), 1-D numpy, DM row, time expression) x second call (same target again, guess of T before/after, control expression) x method/N/M/degree/grid/horizon/scale plus the full target x form x method x grid table: the public read-back of opti's starting point equals an independent guess evaluator (entries the statement leaves open are excluded and counted); rows/objective unchanged; (b) every history of length <= d over 11 ops (guesses incl. dependent ones, query, solve, edit, method), and over 6 ops (two guesses of T, time-expression guesses, query, solve) on 4 grids with their own time variables (localized t0 / T, free): next solve = fresh OCP and = the evaluator",
         bound="k<=%d deviations + table; history depth %d" % ((3, 4) if tier == "thorough" else (2, 3)),
         assumptions=["CasADi Opti.initial() is the solver's starting point", "array guesses do not pin helper states / final-node entries beyond their columns (excluded, counted)", "time-expression guesses on FreeGrid are not pinned (no declared partition)"])
